@@ -575,6 +575,11 @@ class SFloat(Sym):
         o = as_sfloat(o)
         if o is NotImplemented:
             return o
+        if op == "*":
+            # 1 * sqrt(V) keeps the lazy root (np.ones_like(flags) * np.std(x))
+            for p, q in ((self, o), (o, self)):
+                if p.root2 is None and is_f(p.nan) and _is_num(p.v) and _numval(p.v) == 1:
+                    return q
         self._noroot()
         o._noroot()
         a, b = (o, self) if rev else (self, o)
@@ -671,6 +676,9 @@ def _root_cmp(a, b, op):
     ok = mk_and(mk_not(a.nan), mk_not(b.nan))
     V, t = a.root2, b.v  # sqrt(V) op t,  V >= 0
     t2 = t * t
+    ex = _ex.current(optional=True)
+    if ex is not None:
+        ex.event("rootcmp", (V, t2))
     neg = t < 0
     if op == "<":
         r = mk_and(mk_not(neg), V < t2)
